@@ -208,6 +208,8 @@ pub fn gen_rw_run(check: &str, seed: u64, tier: Tier) -> Run {
     // the Rewrite values are built once per run and applied at every rewriting step (all rules the run
     // mentions, every time) instead of being rebuilt per step
     run.set("persistent_rules", Rng::stream(seed, "persistent-rules").chance(1, 4) as i64);
+    // ... and, in two thirds of those runs, to another e-graph first (same class ids / shifted class ids)
+    run.set("decoy_first", [0, 1, 2][Rng::stream(seed, "decoy-first").below(3)]);
     run
 }
 
@@ -292,6 +294,24 @@ thread_local! {
     static PERSISTENT_RULES: RefCell<Option<Vec<Rewrite<LA, SimAn>>>> = RefCell::new(None);
 }
 
+/// persistent-rules mode, first rewriting step: the freshly built rules are applied to another e-graph
+/// first (the run's start terms behind a filler term, so that its class ids are shifted), then to the
+/// e-graph under test. Whatever a rule value remembers from the first e-graph must not matter.
+fn warm_up_on_decoy(run: &Run, rules: &[Rewrite<LA, SimAn>]) {
+    if run.get("decoy_first") == 0 {
+        return;
+    }
+    let mut d: Sess<LA, SimAn> = Sess::new(new_la_egraph(run), run.get("naming") as u32);
+    if run.get("decoy_first") == 2 {
+        let n = |v: u32| Tm::pay("num", v);
+        d.add_term(&Tm::node("mul", vec![], vec![(vec![], n(2)), (vec![], Tm::node("add", vec![], vec![(vec![], n(1)), (vec![], n(0))]))]), false);
+    }
+    for op in run.ops.iter().filter(|o| o.name == "add") {
+        d.add_term(&op.t[0], false);
+    }
+    let _ = apply_rewrites(&mut d.eg, rules);
+}
+
 /// all rule indices the run mentions, in order of first mention
 fn all_rule_indices(run: &Run) -> Vec<i64> {
     let n = rule_pool(run.get("p").clamp(2, 11) as u32).len() as i64;
@@ -336,7 +356,11 @@ pub fn exec_la_op(s: &mut Sess<LA, SimAn>, op: &Op, run: &Run, pb: &Rc<RefCell<u
             let rules = if persistent {
                 match PERSISTENT_RULES.with(|c| c.borrow_mut().take()) {
                     Some(r) => r,
-                    None => make_rules(run, &all_rule_indices(run), &mut s.nm, pb.clone()),
+                    None => {
+                        let r = make_rules(run, &all_rule_indices(run), &mut s.nm, pb.clone());
+                        warm_up_on_decoy(run, &r);
+                        r
+                    }
                 }
             } else {
                 make_rules(run, &op.i[1..], &mut s.nm, pb.clone())
@@ -365,7 +389,11 @@ pub fn exec_la_op(s: &mut Sess<LA, SimAn>, op: &Op, run: &Run, pb: &Rc<RefCell<u
             let rules = if persistent {
                 match PERSISTENT_RULES.with(|c| c.borrow_mut().take()) {
                     Some(r) => r,
-                    None => make_rules(run, &all_rule_indices(run), &mut s.nm, pb.clone()),
+                    None => {
+                        let r = make_rules(run, &all_rule_indices(run), &mut s.nm, pb.clone());
+                        warm_up_on_decoy(run, &r);
+                        r
+                    }
                 }
             } else {
                 make_rules(run, &op.i, &mut s.nm, pb.clone())
@@ -1199,6 +1227,46 @@ impl Check for StopCheck {
         run.set("modify", 0);
         // resumed runner: after the first report the caller clears the public `stop_reason` field,
         // possibly inserts a further term and / or passes other rules, and calls `run` again
+        // (own streams) the same Rewrite values applied to another e-graph before the run; a hook that
+        // unites the classes of the two start terms at a seeded call (hooks may change the e-graph)
+        run.set("decoy_first", [0, 0, 0, 1, 2][Rng::stream(seed, "c15-decoy").below(5)]);
+        run.set("hook_union_at", *Rng::stream(seed, "c15-hook-union").pick(&[-1, -1, -1, 0, 1, 2]));
+        if run.get("hook_union_at") >= 0 && run.get("driver") != 3 {
+            let mut ur = Rng::stream(seed, "c15-union-fold");
+            if ur.chance(2, 3) {
+                // two start terms C[a] and C[b] with one context: when the hook unites a and b, the two
+                // copies of the context collapse by congruence and the node count FALLS in that
+                // iteration (after the rules may have pushed it above the node limit)
+                let a = Tm::leaf("var", vec![0]);
+                let b = if ur.chance(1, 2) { Tm::leaf("var", vec![1]) } else { Tm::pay("cst", 3) };
+                let depth = ur.range(2, 5);
+                let mut choices: Vec<(usize, u32)> = Vec::new();
+                for _ in 0..depth {
+                    choices.push((ur.below(4), ur.below(3) as u32));
+                }
+                let ctx = |hole: Tm| -> Tm {
+                    let mut t = hole;
+                    for (k, c) in &choices {
+                        let other = Tm::pay("num", *c);
+                        t = match k {
+                            0 => Tm::node("add", vec![], vec![(vec![], t), (vec![], other)]),
+                            1 => Tm::node("mul", vec![], vec![(vec![], other), (vec![], t)]),
+                            2 => Tm::node("neg", vec![], vec![(vec![], t)]),
+                            _ => Tm::node("add", vec![], vec![(vec![], other), (vec![], Tm::node("neg", vec![], vec![(vec![], t)]))]),
+                        };
+                    }
+                    t
+                };
+                let rules_op: Vec<Op> = run.ops.iter().filter(|o| o.name != "add").cloned().collect();
+                run.ops = vec![Op::new("add").t(ctx(a.clone())), Op::new("add").t(ctx(b.clone()))];
+                run.ops.extend(rules_op);
+                run.ops.push(Op::new("unionpair").t(a).t(b));
+                // node limits around the size of the two contexts
+                run.set("node_limit", (2 * depth as i64 + ur.range(0, 8) as i64).max(4));
+                run.set("iter_limit", ur.range(2, 6) as i64);
+                run.set("time_limit_ms", 1_000_000_000);
+            }
+        }
         // scale scenario (own stream): thousands of matches of one rule in one call, see exec_scale
         let mut sr = Rng::stream(seed, "scale");
         if sr.chance(1, 1500) {
@@ -1272,6 +1340,21 @@ impl Check for StopCheck {
         let iter_limit = run.get("iter_limit").max(0) as usize;
         let node_limit = run.get("node_limit").max(0) as usize;
         let time_limit_ms = run.get("time_limit_ms").max(0) as u64;
+        let hook_union_at = run.get("hook_union_at");
+        let union_pair: Option<(AppliedId, AppliedId)> = {
+            let mut roots: Vec<AppliedId> = run.ops.iter().filter(|o| o.name == "add").filter_map(|o| s.by_exact.get(&o.t[0]).map(|i| s.tracked[*i].h.clone())).collect();
+            if let Some(o) = run.ops.iter().find(|o| o.name == "unionpair" && o.t.len() == 2) {
+                let hs: Vec<AppliedId> = o.t.iter().filter_map(|t| s.by_exact.get(t).map(|i| s.tracked[*i].h.clone())).collect();
+                if hs.len() == 2 {
+                    roots = hs;
+                }
+            }
+            if roots.len() >= 2 && hook_union_at >= 0 {
+                Some((roots[0].clone(), roots[1].clone()))
+            } else {
+                None
+            }
+        };
         let hook_fail_at = run.get("hook_fail_at");
         let hook_add_at = run.get("hook_add_at");
         let hook_re: Option<RecExpr<LA>> = run.ops.iter().find(|o| o.name == "hookterm").map(|o| to_re::<LA>(&o.t[0], &mut s.nm));
@@ -1287,6 +1370,10 @@ impl Check for StopCheck {
             2 => {
                 // bare apply_rewrites: false => nothing observable changed
                 let rules = mk_rules(&mut s.nm, searches.clone());
+                if catch_op(|| warm_up_on_decoy(run, &rules)).is_err() {
+                    out.discarded = Some("panic".into());
+                    return out;
+                }
                 for it in 0..iter_limit.min(4) + 1 {
                     let before = fingerprint(&mut s);
                     let r = match catch_op(|| apply_rewrites(&mut s.eg, &rules)) {
@@ -1313,11 +1400,16 @@ impl Check for StopCheck {
             }
             1 => {
                 let rules = mk_rules(&mut s.nm, searches.clone());
+                if catch_op(|| warm_up_on_decoy(run, &rules)).is_err() {
+                    out.discarded = Some("panic".into());
+                    return out;
+                }
                 let eg = std::mem::replace(&mut s.eg, new_la_egraph(run));
                 let mut eg = eg;
                 let hook_calls = Rc::new(RefCell::new(0i64));
                 let hc = hook_calls.clone();
                 let time_limit_s = (time_limit_ms / 1000) as usize;
+                let union_pair_e = union_pair.clone();
                 let rep = catch_op(|| {
                     let hook_re = hook_re.clone();
                     run_eqsat(&mut eg, rules, iter_limit, time_limit_s, move |eg| {
@@ -1329,6 +1421,11 @@ impl Check for StopCheck {
                         if n == hook_add_at {
                             if let Some(re) = &hook_re {
                                 eg.add_expr(re.clone());
+                            }
+                        }
+                        if n == hook_union_at {
+                            if let Some((a, b)) = &union_pair_e {
+                                eg.union(a, b);
                             }
                         }
                         if n == hook_fail_at {
@@ -1402,9 +1499,14 @@ impl Check for StopCheck {
             }
             _ => {
                 let rules = mk_rules(&mut s.nm, searches.clone());
+                if catch_op(|| warm_up_on_decoy(run, &rules)).is_err() {
+                    out.discarded = Some("panic".into());
+                    return out;
+                }
                 let eg = std::mem::replace(&mut s.eg, new_la_egraph(run));
                 let hook_calls = Rc::new(RefCell::new(0i64));
                 let hc = hook_calls.clone();
+                let union_pair_r = union_pair.clone();
                 let mut runner: Runner<LA, SimAn, (), String> = Runner::new(SimAn { p, modify: false })
                     .with_egraph(eg)
                     .with_iter_limit(iter_limit)
@@ -1419,6 +1521,11 @@ impl Check for StopCheck {
                         if n == hook_add_at {
                             if let Some(re) = &hook_re {
                                 r.egraph.add_expr(re.clone());
+                            }
+                        }
+                        if n == hook_union_at {
+                            if let Some((a, b)) = &union_pair_r {
+                                r.egraph.union(a, b);
                             }
                         }
                         if n == hook_fail_at {
